@@ -279,8 +279,36 @@ Definition s_conv (a : args) : list (list Z) :=
             conv_pages k (page_rows rows (nats_of (arg 4 a))) (rows_at k 13 a) (rows_at k 16 a) (arg 19 a) (arg 20 a) in
   [[ if (c1 =? ok)%Z then c2 else c1 ]].
 
+(* ------------------------------------------------------------------ StatisticsConverter, several row groups
+   c07.convrg: 0 [row limit; batch size]  1 validity  2 Int64 values  3 rows per row group (input)
+   4 row_group_indices given to the converter
+   observations: 5 num_rows per row group  6 pages per row group  7 first_row_index of all pages
+   8 [status]  9 data_page_row_counts  10 data_page_null_counts  11,12 page mins  13,14 page maxes
+   The converter must describe, in the order of the requested indices, exactly the pages of those row
+   groups: row count = size of the page, null count exact, min/max bound the page's rows. *)
+Fixpoint split_sizes {A} (sizes : list nat) (l : list A) : list (list A) :=
+  match sizes with [] => [] | n :: r => firstn n l :: split_sizes r (skipn n l) end.
+
+Definition s_convrg (a : args) : list (list Z) :=
+  let rows := mk_rows (bools_of (arg 1 a)) (map (fun z => inl z : value) (arg 2 a)) in
+  let sizes := filter (fun n => negb (n =? 0)%nat) (nats_of (arg 3 a)) in
+  let idx := nats_of (arg 4 a) in
+  let rg_rows := split_sizes sizes rows in
+  let rg_starts := split_sizes (nats_of (arg 6 a)) (nats_of (arg 7 a)) in
+  (* pages of every row group *)
+  let rg_pages := map2 (fun r st => page_rows r st) rg_rows rg_starts in
+  let wanted := flat_map (fun i => nth i rg_pages []) idx in
+  let mins := mk_rows (bools_of (arg 11 a)) (map (fun z => inl z : value) (arg 12 a)) in
+  let maxs := mk_rows (bools_of (arg 13 a)) (map (fun z => inl z : value) (arg 14 a)) in
+  [[ first_fail
+     [ (list_eqb Z.eqb (arg 5 a) (map Z.of_nat sizes), 110%Z);                      (* row groups hold the flushed rows *)
+       ((List.length rg_starts =? List.length rg_rows)%nat &&
+        forallb (fun p => partition_ok (List.length (fst p)) (snd p)) (combine rg_rows rg_starts), 111%Z);
+       ((nth 0 (arg 8 a) 0 =? 1)%Z, 112%Z);                                         (* the converter answered *)
+       (let c := conv_pages KI64 wanted mins maxs (arg 10 a) (arg 9 a) in (c =? ok)%Z, 113%Z) ] ]].
+
 Definition ops_C07 : list (string * opfun) :=
   [ ("c07.file.spec", s_file); ("c07.file", d_file);
     ("c07.bloom.spec", s_bloom); ("c07.bloom", d_bloom);
     ("c07.sbbf", d_sbbf); ("c07.sbbf_check.spec", s_sbbf_check);
-    ("c07.conv.spec", s_conv) ].
+    ("c07.conv.spec", s_conv); ("c07.convrg.spec", s_convrg) ].
